@@ -394,6 +394,14 @@ def _gate_constants(fn, var: str, where: str) -> dict:
                 raise TranslatorError(f"{where}: msg_id = {ast.unparse(v)} outside the subset")
     if take is None or idx is None:
         raise TranslatorError(f"{where}: prefix comparison or msg_id index not found")
+    # statement ORDER matters: the guard must come before the index, the index before the protected handler call
+    guard_line = min((n.lineno for n in ast.walk(fn) if isinstance(n, ast.If) and len(n.body) == 1
+                      and isinstance(n.body[0], ast.Return)), default=0)
+    idx_line = min((n.lineno for n in ast.walk(fn) if isinstance(n, ast.Assign) and len(n.targets) == 1
+                    and ast.unparse(n.targets[0]) == "msg_id"), default=0)
+    try_line = min((n.lineno for n in ast.walk(fn) if isinstance(n, ast.Try)), default=10 ** 9)
+    if not (guard_line < idx_line < try_line):
+        raise TranslatorError(f"{where}: expected the prefix/length guard, then `msg_id = …`, then the try block, in this order")
     return {"take": take, "idx": idx, "minlen": minlen, "catch": _handler_call_caught(fn, "handler", where)}
 
 
@@ -489,6 +497,66 @@ def ast_constants() -> dict:
         if isinstance(node, ast.Compare) and ast.unparse(node.left) == "len(packet)" and isinstance(node.ops[0], ast.Lt):
             guard = _int(node.comparators[0])
     c["cell"] = {"hdr_off": hdr[1], "hdr_size": struct.calcsize(hdr[0]), "msg_start": msg_start, "guard": guard}
+    # StatisticsEndpoint.on_packet (shipped non-overlay listener):
+    #   prefix = data[:N]; if prefix not in list(self.statistics.keys()) or len(data) < K: return; message_id = data[M]
+    tree = ast.parse((REPO / "ipv8/messaging/interfaces/statistics_endpoint.py").read_text())
+    fn = _func(tree, "StatisticsEndpoint", "on_packet")
+    st = {"take": None, "minlen": 0, "idx": None}
+    for node in ast.walk(fn):
+        if isinstance(node, ast.Assign) and len(node.targets) == 1 and isinstance(node.value, ast.Subscript) \
+                and ast.unparse(node.value.value) == "data":
+            sl = node.value.slice
+            if isinstance(sl, ast.Slice) and sl.lower is None and ast.unparse(node.targets[0]) == "prefix":
+                st["take"] = _int(sl.upper)
+            elif not isinstance(sl, ast.Slice):
+                st["idx"] = _int(sl)
+        if isinstance(node, ast.Compare) and ast.unparse(node.left) == "len(data)" and len(node.ops) == 1:
+            if isinstance(node.ops[0], ast.Lt):
+                st["minlen"] = max(st["minlen"], _int(node.comparators[0]))
+            elif isinstance(node.ops[0], ast.LtE):
+                st["minlen"] = max(st["minlen"], _int(node.comparators[0]) + 1)
+        if isinstance(node, ast.Try):
+            raise TranslatorError("StatisticsEndpoint.on_packet: try statement outside the subset")
+    if st["take"] is None or st["idx"] is None:
+        raise TranslatorError("StatisticsEndpoint.on_packet: prefix slice or message id index not found")
+    c["stats"] = st
+    # datagram_received of both UDP endpoints: `if self._running:` … `notify_listeners((UDPvXAddress(*addr[:n]), datagram))`
+    tree = ast.parse((REPO / "ipv8/messaging/interfaces/udp/endpoint.py").read_text())
+    c["udp"] = {}
+    for cls_name, key, ctor in (("UDPEndpoint", "v4", "UDPv4Address"), ("UDPv6Endpoint", "v6", "UDPv6Address")):
+        fn = _func(tree, cls_name, "datagram_received")
+        calls = [n for n in ast.walk(fn) if isinstance(n, ast.Call) and ast.unparse(n.func) == ctor]
+        if len(calls) != 1 or len(calls[0].args) != 1 or not isinstance(calls[0].args[0], ast.Starred) or calls[0].keywords:
+            raise TranslatorError(f"{cls_name}.datagram_received: address conversion is not {ctor}(*<expr>)")
+        v = calls[0].args[0].value
+        if isinstance(v, ast.Name) and v.id == "addr":
+            c["udp"][key] = None
+        elif isinstance(v, ast.Subscript) and ast.unparse(v.value) == "addr" and isinstance(v.slice, ast.Slice) \
+                and v.slice.lower is None and v.slice.step is None:
+            c["udp"][key] = _int(v.slice.upper)
+        else:
+            raise TranslatorError(f"{cls_name}.datagram_received: address expression {ast.unparse(v)} outside the subset")
+        guards = [n for n in fn.body if isinstance(n, ast.If) and ast.unparse(n.test) == "self._running"]
+        if len(guards) != 1 or not any(isinstance(n, ast.Call) and ast.unparse(n.func) == "self.notify_listeners"
+                                       for n in ast.walk(guards[0])):
+            raise TranslatorError(f"{cls_name}.datagram_received: `if self._running:` around notify_listeners not found")
+    # Network.load_snapshot: while-loop whose entry decode sits in try/except Exception with the got-stuck break
+    tree = ast.parse((REPO / "ipv8/peerdiscovery/network.py").read_text())
+    fn = _func(tree, "Network", "load_snapshot")
+    tries = [n for n in ast.walk(fn) if isinstance(n, ast.Try)]
+    whiles = [n for n in ast.walk(fn) if isinstance(n, ast.While)]
+    if len(whiles) != 1 or ast.unparse(whiles[0].test) != "offset < snaplen":
+        raise TranslatorError("Network.load_snapshot: `while offset < snaplen` not found")
+    catch = stuck = False
+    if len(tries) == 1 and any(isinstance(n, ast.Call) and ast.unparse(n.func).endswith(".unpack")
+                               for x in tries[0].body for n in ast.walk(x)):
+        catch = _catches_exception(tries[0])
+        for h in tries[0].handlers:
+            for n in ast.walk(h):
+                if isinstance(n, ast.If) and ast.unparse(n.test) in ("offset <= previous_offset", "previous_offset >= offset") \
+                        and any(isinstance(x, ast.Break) for x in n.body):
+                    stuck = True
+    c["snap"] = {"catch": catch, "stuck": stuck}
     # Network.get_verified_by_address runs in Community.on_packet before the prefix gate and outside the try:
     # are all its dict accesses of the non-raising kind?  (subscript loads on self.<dict> and one-argument .pop raise)
     tree = ast.parse((REPO / "ipv8/peerdiscovery/network.py").read_text())
@@ -512,7 +580,22 @@ def ast_constants() -> dict:
     return c
 
 
+def check_listener_classes():
+    """every shipped EndpointListener subclass must be one the model has a constructor for"""
+    from ipv8.messaging.anonymization.crypto import PythonCryptoEndpoint
+    from ipv8.messaging.interfaces.endpoint import EndpointListener
+    from ipv8.messaging.interfaces.statistics_endpoint import StatisticsEndpoint
+    from ipv8.overlay import Overlay
+    import_all()
+    unknown = [c.__module__ + "." + c.__name__ for c in _allsubs(EndpointListener)
+               if c.__module__.startswith("ipv8.") and not c.__module__.startswith(SKIP_MODULES)
+               and not issubclass(c, (Overlay, PythonCryptoEndpoint, StatisticsEndpoint))]
+    if unknown:
+        raise TranslatorError(f"shipped EndpointListener classes without a model: {unknown}")
+
+
 def live_constants() -> dict:
+    check_listener_classes()
     from ipv8.messaging.anonymization.payload import NO_CRYPTO_PACKETS, CellPayload
     from ipv8.messaging.interfaces.endpoint import Endpoint
 
@@ -598,6 +681,16 @@ def translate(t: dict | None = None) -> str:
         f"def cellMsgStart : Nat := {a['cell']['msg_start']}",
         f"def cellGuard : Nat := {a['cell']['guard']}",
         f"def noCryptoPackets : List Nat := {lv['no_crypto']}",
+        "/-- StatisticsEndpoint.on_packet: `data[:statTake]`, `len(data) < statMinLen`, `data[statIdx]` -/",
+        f"def statTake : Nat := {a['stats']['take']}",
+        f"def statMinLen : Nat := {a['stats']['minlen']}",
+        f"def statIdx : Nat := {a['stats']['idx']}",
+        "/-- datagram_received: the `[:n]` applied to the transport's address tuple before `UDPvXAddress(*…)` -/",
+        f"def v4AddrSlice : Option Nat := {'none' if a['udp']['v4'] is None else 'some ' + str(a['udp']['v4'])}",
+        f"def v6AddrSlice : Option Nat := {'none' if a['udp']['v6'] is None else 'some ' + str(a['udp']['v6'])}",
+        "/-- Network.load_snapshot: entry decode inside try/except Exception; `offset <= previous_offset` → break -/",
+        f"def snapCatchAll : Bool := {b(a['snap']['catch'])}",
+        f"def snapStuckBreak : Bool := {b(a['snap']['stuck'])}",
         "/-- Network.get_verified_by_address: every dict access is of the non-raising kind (.get / .pop(k, d) / in) -/",
         f"def lookupDictSafe : Bool := {b(a['lookup']['safe'])}",
         "",
